@@ -667,4 +667,7 @@ package io
 // only the input primitives (and the constructors / resets) touch buf, head, tail and reader:
 // every other decode routine is a client of the primitives, so its outcome is a function of the
 // logical stream and position
-//@ rule encapsulated Decoder.head funcs=NewDecoder,NewDecoderFromReader,(*Decoder).loadMore prop=C05
+//@ rule encapsulated Decoder.head funcs=NewDecoder,NewDecoderFromReader,(*Decoder).loadMore,(*Decoder).NextByte,(*Decoder).Skip,(*Decoder).next,(*Decoder).Remains,(*Decoder).until,(*Decoder).readUint64,(*Decoder).fastReadStringAsBytes,(*Decoder).readStringAsBytes,(*Decoder).ResetReader,(*Decoder).ResetBytes,(*Decoder).ResetBuffer,(*Decoder).ReadCount prop=C05
+//@ rule encapsulated Decoder.tail funcs=NewDecoder,NewDecoderFromReader,(*Decoder).loadMore,(*Decoder).NextByte,(*Decoder).Skip,(*Decoder).next,(*Decoder).Remains,(*Decoder).until,(*Decoder).readUint64,(*Decoder).fastReadStringAsBytes,(*Decoder).readStringAsBytes,(*Decoder).ResetReader,(*Decoder).ResetBytes,(*Decoder).ResetBuffer,(*Decoder).ReadCount prop=C05
+//@ rule encapsulated Decoder.buf funcs=NewDecoder,NewDecoderFromReader,(*Decoder).loadMore,(*Decoder).NextByte,(*Decoder).Skip,(*Decoder).next,(*Decoder).Remains,(*Decoder).until,(*Decoder).readUint64,(*Decoder).fastReadStringAsBytes,(*Decoder).readStringAsBytes,(*Decoder).ResetReader,(*Decoder).ResetBytes,(*Decoder).ResetBuffer,(*Decoder).ReadCount prop=C05
+//@ rule encapsulated Decoder.reader funcs=NewDecoder,NewDecoderFromReader,(*Decoder).loadMore,(*Decoder).NextByte,(*Decoder).Skip,(*Decoder).next,(*Decoder).Remains,(*Decoder).until,(*Decoder).readUint64,(*Decoder).fastReadStringAsBytes,(*Decoder).readStringAsBytes,(*Decoder).ResetReader,(*Decoder).ResetBytes,(*Decoder).ResetBuffer,(*Decoder).ReadCount prop=C05
